@@ -63,3 +63,26 @@ package gnmi
 //@   assert at call BidiStreamingServer.Send#0: [updates-carry-the-subscribed-target C20] c.subscribe.Prefix != nil && c.subscribe.Prefix.Target != "" && RespUpdate(arg0) != nil
 //@     ==> RespUpdate(arg0).Prefix != nil && RespUpdate(arg0).Prefix.Target == c.subscribe.Prefix.Target
 //@   ensures [stream-ends-with-the-queue-or-an-error C20] hits("call (*Client).nextInQueue#0") - old(hits("call (*Client).nextInQueue#0")) - (hits("call BidiStreamingServer.Send#0") - old(hits("call BidiStreamingServer.Send#0"))) <= 1
+
+// Close marks the client cancelled (nextInQueue then refuses to take further events) and wakes a sender that is holding
+// the stream open.
+//@ func (*Client).Close
+//@   props C20 C12
+//@   requires c != nil && c.canceledCh != nil && !closed(c.canceledCh)
+//@   modifies c.canceled, sends(c.canceledCh)
+//@   ensures [cancelled C20] c.canceled
+// Run: the first message must be a subscription list; the queue is built from the configuration BEFORE anything is
+// sent; one receiver goroutine, then the send loop on this goroutine.
+//@ func (*Client).Run
+//@   props C20 C12
+//@   requires c != nil && c.polled != nil && c.canceledCh != nil && !closed(c.canceledCh)
+//@   requires c.config != nil ==> (c.config.Generator != nil ==> payload(c.config.Generator) != nil)
+//@     && (forall i int :: 0 <= i && i < len(c.config.Values) ==> FakeMsgWf(c.config.Values[i]) && allocated(c.config.Values[i].Timestamp))
+//@   modifies *
+//@   assert at call (*Client).send#0: [queue-built-before-sending C20] hits("call (*Client).reset#0") == old(hits("call (*Client).reset#0")) + 1 && arg1 == stream
+//@   assert at go (*Client).recv#0: [one-receiver-for-this-stream C20] hits("call (*Client).reset#0") == old(hits("call (*Client).reset#0")) + 1 && arg1 == stream
+//@   ensures [a-missing-config-or-stream-is-refused C12] old(c.config) == nil || stream == nil ==> res0 != nil
+//@ func (*Client).addRequest
+//@   props C20 C12
+//@   requires c != nil
+//@   modifies c.requests, elems(c.requests)
